@@ -19,7 +19,7 @@ for p in props:
             engine='coq-model',
             level_claimed=dict(category='proof', text=c['text'], design_ref=c.get('design_ref', 'DESIGN.md §3 ' + pid)),
             level_note=c['note'],
-            technique=c.get('technique', 'Coq 8.16 theorems over a hand-written Gallina model + extracted model/monitor correspondence against the real transport')))
+            technique=c.get('technique', 'Coq 8.16 theorems over a Gallina model of the code; the model is tied to /repo on every run two ways: parts of it are regenerated from the Go source by a translator and proved equal to the hand-written definitions (Cxx_source_* theorems), and the extracted model and monitors are run against the real transport on generated histories and experiments (correspondence)')))
     else:
         na.append(dict(property_id=pid, reason=NOT_YET.get(pid, 'check under construction in this session; not yet claimed')))
 m = dict(
